@@ -115,6 +115,28 @@ def check_sample(spec, side, sampler, out, source):
         if pc != cid:
             _v('conditions of the sample %s differ in order from model.subsample_pattern(%r, '
                'pattern_idx) %s' % (cid, by, pc), 'order:prediction:' + sampler)
+        # the same resampling of model predictions held as integer or boolean vectors
+        # (categorical model RDMs): source value per pair, NaN exactly between two copies
+        n_c = side['n_cond']
+        prs = ref.pairs(n_c)
+        for dt, vals in (('int', [i + 3 * j for (i, j) in prs]),
+                         ('bool', [(i + j) % 2 == 1 for (i, j) in prs])):
+            if not prs:
+                continue
+            arr = np.array([vals], dtype=np.int64 if dt == 'int' else bool)
+            mod = RDMs(arr, pattern_descriptors={k: list(v) for k, v in side['pat_desc'].items()})
+            pr = lib(mod.subsample_pattern, by, out[-1], on_error='violation',
+                     sig='raises:model.subsample_pattern:' + dt)
+            got = np.asarray(pr.get_vectors(), dtype=float)[0]
+            ids = [int(x) - S.CID0 for x in pr.pattern_descriptors['_cid']]
+            sq = ref.to_square(np.array(vals, dtype=float), n_c)
+            for k, (a, b) in enumerate(ref.pairs(len(ids))):
+                want = float('nan') if ids[a] == ids[b] else float(sq[ids[a], ids[b]])
+                if not core.close(got[k], want, rtol=0, atol=0):
+                    _v('%s-typed model prediction resampled with the returned indices: pair of '
+                       'conditions (%d, %d) is %r, expected %r' % (dt, ids[a], ids[b], float(got[k]),
+                                                                   want),
+                       'prediction-value:%s:%s' % (dt, sampler))
     else:
         if cid != list(range(side['n_cond'])):
             _v('RDM-only sample has conditions %s, source order is 0..%d' % (cid, side['n_cond'] - 1),
@@ -132,6 +154,15 @@ def check_sample(spec, side, sampler, out, source):
 def call_sampler(spec, sampler, draws, fallback_seed=0):
     fn, dims = SAMPLERS[sampler]
     source, side = S.build(spec, RDMs)
+    if (spec['n_rdm'] + spec['n_cond']) % 2 == 0:
+        # "equals the source dissimilarity" means the source as it is when the sample is drawn:
+        # look at the square form first, then put the values in place through the public array
+        # (a deterministic half of the cases; a form computed earlier must not be served again)
+        final = np.array(source.dissimilarities, dtype=float)
+        source.dissimilarities[...] = np.where(np.isnan(final), final, final + 1.0)
+        source.get_matrices()
+        source.get_vectors()
+        source.dissimilarities[...] = final
     kw = S.kwargs_for(spec, dims)
     with rng.Injected(draws, fallback_seed) as rec:
         out = lib(fn, source, on_error='violation', sig='raises:' + fn.__name__, **kw)
